@@ -5,7 +5,7 @@ from props import readcheck as RC
 
 ID = "C06"
 RULE = ("R cases in strict mode (nothing tolerated, nothing buffered) over valid / mid-document / mutated / random streams mixing known- and "
-        "unknown-size masters at several depths; an independent checker (props/readcheck.py check_strict, written from the property text) "
+        "unknown-size masters at several depths (plus the straddle family: a known-size master ending inside the header of an unknown-size descendant master); an independent checker (props/readcheck.py check_strict, written from the property text) "
         "replays the emitted items against the input: End/Start matching incl. implied ancestors, known ids, declared-path matching of the "
         "chain of open masters, containment in every enclosing known-size master, End exactly at exhaustion, EOF closing innermost first.  "
         "History cases (hist-flat / hist-buf): mutated streams and valid documents with a junk byte inserted, read by random next()/try_recover()/drain "
@@ -26,6 +26,15 @@ def generate(rng, tier):
         sp, data, kind, _ = gen_stream(rng, specs, big=(k % 13 == 0), p_valid=0.4, p_mut=0.45, mid=0.3, p_over=0.3)
         cfg = E.cfg_str(maxs=safe_max(rng, kind), cap=rng.choice(["def", "def", "3", "16"]), eof=1)
         cases.append(Case("R %s %s - %s N" % (sp.s(), cfg, data.hex() or "-"), kind))
+    # a known-size master whose range ends inside the HEADER of an unknown-size descendant master (the header has to fit although
+    # no size is declared): a deterministic family, the random mutations hardly ever cut a range at such a place
+    for k in range(400 * TH if thorough else 80):
+        sp = rng.choice(specs)
+        r = make_straddle(rng, sp)
+        if r is None:
+            continue
+        cfg = E.cfg_str(maxs=safe_max(rng, "mutated"), cap=rng.choice(["def", "def", "3", "16"]), eof=1)
+        cases.append(Case("R %s %s - %s N" % (sp.s(), cfg, r[0].hex()), "straddle"))
     # the nesting clause over WHOLE histories: errors, try_recover() and further calls, with and without buffered masters
     for k in range(6000 * TH if thorough else 900):
         sp, data, kind, _ = gen_stream(rng, specs, big=False, p_valid=0.15, p_mut=0.7, mid=0.2, p_over=0.3)
